@@ -60,6 +60,12 @@ def traversal_obligations(ctx, only=None):
     generated_obligations(ctx, tv.render, "Cgreen.Gen.Traversal", only, "the traversal of a suite (run_every_test, run_named_test) rendered into Lean")
 
 
+def platform_obligations(ctx, only=None):
+    """translate/platform.py: the paths of run_test_in_its_own_process(), rendered from the current source"""
+    import platform_paths as pf
+    generated_obligations(ctx, pf.render, "Cgreen.Gen.Platform", only, "the paths of run_test_in_its_own_process() rendered into Lean")
+
+
 def outside_bracket_scens():
     """Scenarios in which a failed check reaches the channel outside a test's own bracket: (scenario, description)."""
     late = []
@@ -303,6 +309,7 @@ def c02_facts(scen, m):
 def check_C02(ctx):
     runner_lean(ctx)
     reader_obligations(ctx)
+    platform_obligations(ctx)
     rng = random.Random(ctx.seed * 1000 + 2)
     bench = Bench(ctx)
     scens = []
@@ -611,6 +618,7 @@ def check_C08(ctx):
     runner_lean(ctx)
     phase_obligations(ctx)
     traversal_obligations(ctx)
+    platform_obligations(ctx, ["switched_off_test", "test_process"])
     rng = random.Random(ctx.seed * 1000 + 8)
     bench = Bench(ctx)
     scens = []
@@ -927,6 +935,7 @@ def fw_expected(res):
 
 def check_C04(ctx):
     ok, out, failed = lean_check(ctx)
+    platform_obligations(ctx, ["reporting_process", "test_process"])      # the order Model/Signals.lean assumes: fork, then ignore - wait - allow
     rng = random.Random(ctx.seed * 1000 + 4)
     bench = Bench(ctx)
     sets = []
